@@ -55,15 +55,20 @@ pub struct Q128 {
     d: i128, // > 0
 }
 
-fn gcd(mut a: i128, mut b: i128) -> i128 {
-    a = a.abs();
-    b = b.abs();
+fn gcd(a: i128, b: i128) -> i128 {
+    // unsigned: |i128::MIN| does not fit an i128 (reached with coefficients around 1e17)
+    let (mut a, mut b) = (a.unsigned_abs(), b.unsigned_abs());
     while b != 0 {
         let t = a % b;
         a = b;
         b = t;
     }
-    a
+    if a > i128::MAX as u128 {
+        flag();
+        1
+    } else {
+        a as i128
+    }
 }
 
 impl Q128 {
